@@ -27,6 +27,13 @@ func Of(v any) string {
 	return w.sb.String()
 }
 
+// OfValue is Of for a reflect.Value (works for unexported fields too).
+func OfValue(v reflect.Value) string {
+	w := &walker{seen: map[uintptr]bool{}}
+	w.walk(v)
+	return w.sb.String()
+}
+
 // Err returns the canonical string of an error: message plus the types along
 // the Unwrap chain plus, when present, Code and Location fields.
 func Err(err error) string {
@@ -45,22 +52,15 @@ func Err(err error) string {
 		}
 		if rv.Kind() == reflect.Struct {
 			if f := rv.FieldByName("Code"); f.IsValid() {
-				sb.WriteString(" code=" + fmt.Sprint(f))
+				sb.WriteString(" code=" + OfValue(f))
 			}
 			if f := rv.FieldByName("Location"); f.IsValid() {
-				sb.WriteString(" loc=" + Of(valueInterface(f)))
+				sb.WriteString(" loc=" + OfValue(f))
 			}
 		}
 	}
 	sb.WriteString("}")
 	return sb.String()
-}
-
-func valueInterface(v reflect.Value) any {
-	if v.CanInterface() {
-		return v.Interface()
-	}
-	return fmt.Sprint(v)
 }
 
 var errorType = reflect.TypeOf((*error)(nil)).Elem()
@@ -86,7 +86,8 @@ func (w *walker) walk(v reflect.Value) {
 	case reflect.Float32, reflect.Float64:
 		w.sb.WriteString(strconv.FormatFloat(v.Float(), 'g', -1, 64))
 	case reflect.Complex64, reflect.Complex128:
-		w.sb.WriteString(fmt.Sprint(v.Complex()))
+		c := v.Complex()
+		w.sb.WriteString(strconv.FormatFloat(real(c), 'g', -1, 64) + "+" + strconv.FormatFloat(imag(c), 'g', -1, 64) + "i")
 	case reflect.String:
 		w.sb.WriteString(strconv.Quote(v.String()))
 	case reflect.Ptr:
